@@ -158,7 +158,18 @@ class ParserAI:
                     work.append((s_, env, k, bb, trail, anc))
             elif tk == "call":
                 c = Call(f, bb, t)
-                for (nenv, nk, consumed) in self._call(f, c, env, k, subst):
+                if c.target is None and is_panic_call(c):
+                    o = ("!", False)
+                    out.add(o)
+                    self.witness.setdefault((key, o), trail + ("%s@%s" % (last_seg(c.path), c.line),))
+                    continue
+                for item in self._call(f, c, env, k, subst):
+                    if item == "PANIC":
+                        o = ("!", False)
+                        out.add(o)
+                        self.witness.setdefault((key, o), trail + ("%s@%s panics" % (last_seg(c.path), c.line),))
+                        continue
+                    (nenv, nk, consumed) = item
                     if consumed:
                         out.add(("*", True))
                     elif c.target is not None:
@@ -380,6 +391,9 @@ class ParserAI:
             n_ = argavs[0][1][1]
             return [ret(("b", int(n_ == 0)) if name == "is_empty" else ("i", n_))]
         is_parser_method = path.startswith(PARSER + "::")
+        if is_parser_method and name == "take":
+            # take::<T>() = take_raw + assert(kind == T::KIND): that the assertion holds is rule R9.2's business
+            return [ret(None)] if k == EOF_KIND else [ret(None, consumed=True)]
         if is_parser_method and name in BASE_CONSUMERS:
             if k == EOF_KIND:
                 return [ret(None)]
@@ -459,6 +473,12 @@ class ParserAI:
             if name == "or_else" and carries:
                 return [ret(a)]
             return [ret(None)]
+        if name in ("unwrap", "expect") and ("Option" in path or "Result" in path) and argavs and argavs[0] is not None and argavs[0][0] == "v":
+            a = argavs[0]
+            good = (a[1] == 1) if "Option" in path else (a[1] == 0)
+            if not good:
+                return ["PANIC"]
+            return [ret(a[2] if len(a) > 2 else None)]
         if name == "require" and argavs and argavs[0] is not None and argavs[0][0] == "b":
             return [ret(("v", 1, None) if argavs[0][1] else ("v", 0, None))]
         # --- a closure called directly: the arguments arrive as (closure, (args..)) and are spread in the body
@@ -492,6 +512,9 @@ class ParserAI:
             if consumed:
                 consumed_any = True
                 continue
+            if rav == "!":
+                res.append("PANIC")
+                continue
             if rav in seen_vals:
                 continue
             seen_vals.add(rav)
@@ -499,6 +522,14 @@ class ParserAI:
         if consumed_any:
             res.append(ret(None, consumed=True))
         return res
+
+
+PANIC_FNS = ("core::panicking::", "std::rt::begin_panic", "core::option::unwrap_failed", "core::result::unwrap_failed",
+             "core::option::expect_failed", "core::slice::index::", "core::str::slice_error_fail")
+
+
+def is_panic_call(c):
+    return c.path.startswith(PANIC_FNS) or "panicking" in c.path
 
 
 def _payload_free(f, c):
